@@ -645,6 +645,10 @@ def gen_inst(outdir, seed, k):
              "tab": (pick("env", "env", "GOT.func", "js-env"), pick("tab", "__indirect_function_table", "t-1", "table$X")),
              "goff": (pick("env", "env", "GOT.mem", "a__b"), pick("goff", "__memory_base", "g.off", "goff__x")),
              "ginit": (pick("env", "env", "__main__", "Xenv"), pick("ginit", "__stack_pointer", "gXinit$", "g init"))}
+    if not plain and rn.random() < 0.4:
+        # consecutive imports whose module names are a name and a proper prefix of it (mem/tab come before goff/ginit)
+        names["goff"] = ("env", names["goff"][1]); names["ginit"] = ("en", names["ginit"][1])
+        names["tab"] = ("env2", names["tab"][1]); names["mem"] = ("env2x", names["mem"][1])
     if mem_imported:
         m.import_memory(names["mem"][0], names["mem"][1], mem_min, mem_max)
     if tab_imported:
